@@ -303,7 +303,7 @@ def check(prop, tier, seed):
     if tier == "quick":
         shards, n, ln = 4, 14, 110
     else:
-        shards, n, ln = 12, 60, 200
+        shards, n, ln = 16, 80, 200
     jobs = [("rec%d" % s, ["record", "--seed", str(seed * 1000 + s), "--n", str(n), "--len", str(ln), "--profile", prof])
             for s in range(shards)]
     if prop == "C14":
